@@ -127,6 +127,12 @@ func (h *simHooks) Go(owner any, name string) {
 	}
 }
 
+func (h *simHooks) Done(owner any, name string) {
+	if s := h.sched; s != nil {
+		s.goEnd(owner, name)
+	}
+}
+
 func (h *simHooks) Access(owner any, obj string, write bool) {
 	if s := h.sched; s != nil {
 		s.access(owner, obj, write)
